@@ -197,12 +197,5 @@ Definition otto_def_array (o : obj) (k : key) (d : desc) (throw : bool) : obj * 
     end
   end.
 
-(* builtin_array.go departs from the 15.4.4 step lists in two places (findings/C08.json classes 11, 12):
-   builtinArrayToString passes call.ArgumentList on to join, and the seven callback methods test
-   iterator.isCallable() before they read "length" *)
 Definition otto : dialect :=
-  mkDia otto_def_array otto_rel otto_cnt otto_indexof otto_lastindexof true true.
-
-(* ES5 with only the toString departure: used by the correspondence run to attribute a disagreement *)
-Definition es5_tostring_args : dialect :=
-  mkDia def_array (dia_rel es5) (dia_cnt es5) (dia_indexof es5) (dia_lastindexof es5) true false.
+  mkDia otto_def_array otto_rel otto_cnt otto_indexof otto_lastindexof.
